@@ -75,6 +75,8 @@ impl<T, E> Observer<T, E> for ObservableStreamObserver<T, E> {
       .sender
       .unbounded_send(Message::Item(Err(err)))
       .expect("failed to send error to stream");
+    // the error is the last element: end the stream after it.
+    self.complete();
   }
 
   fn complete(self) {
